@@ -117,9 +117,28 @@ def confirm_violations(prop, agg, r_mcb, predicate, keyfn, out, max_replays=40, 
             out.violation_lines.append('VIOLATION property=%s replay=%s' % (prop, rp))
 
 
-def translation_validate(agg_leaves, r_mcb, tier, seed, with_int=True, cap=None):
+def real_violation(out, prop, line, o, key, why='the real build violates the property on a leaf model (found by translation validation)'):
+    """a replay on the real build that violates the property is a confirmed violation, however it was found"""
+    rp = os.path.join(cex_dir(), '%s-replay-tv-%d.json' % (prop, len(out.replays)))
+    with open(rp, 'w') as f:
+        json.dump({'property': prop, 'replayer': 'replay/r_mcb.cpp', 'line': line, 'key': key, 'observed': o, 'note': why}, f, indent=1)
+    kf = finding_matches(prop, key)
+    out.replays.append({'key': key, 'line': line, 'obligation': 'real-build replay of a leaf model', 'known': bool(kf)})
+    if kf:
+        out.n_known += 1
+        msg = 'KNOWN-FINDING: property=%s %s' % (prop, kf['text'])
+        if msg not in out.known_lines:
+            out.known_lines.append(msg)
+    else:
+        out.n_confirmed += 1
+        if len(out.violation_lines) < 10:
+            out.violation_lines.append('VIOLATION property=%s replay=%s' % (prop, rp))
+
+
+def translation_validate(agg_leaves, r_mcb, tier, seed, with_int=True, cap=None, out=None, prop=None, violated=None):
     """Push sampled leaf models through the REAL build (double and int) and compare the quantities the input
-    determines uniquely with what the symbolic leaf predicted.  Returns (#validated, mismatch or None)."""
+    determines uniquely with what the symbolic leaf predicted.  Returns (#validated, mismatch or None).
+    A real run that violates the property itself (predicate `violated`) is reported as a violation, not as a mismatch."""
     r = rng(seed)
     leaves = list(agg_leaves)
     r.shuffle(leaves)
@@ -140,7 +159,10 @@ def translation_validate(agg_leaves, r_mcb, tier, seed, with_int=True, cap=None)
             meta.append((rec, den, wt))
     outs = run_replayer_batch(r_mcb, lines)
     n = 0
-    for (rec, den, wt), o in zip(meta, outs):
+    for (rec, den, wt), o, line in zip(meta, outs, lines):
+        if violated is not None and out is not None and violated(o, rec):
+            real_violation(out, prop, line, o, 'mcb_sva_%s/%s' % (rec.get('algo'), rec.get('edges')))
+            continue
         if o.get('crashed'):
             return n, 'real build crashed on leaf model %s (%s)' % (rec.get('case'), wt)
         exp_ret = parse_q(rec['ret']) * den
